@@ -175,6 +175,11 @@ def check_pairs(run, r, g, tier):
         if cmp_st + cmp_ts != 2:
             run.violation('property', 'fast_compare is not antisymmetric on a %s pair' % kind,
                           dict(s=repr(s), t=repr(t), st=cmp_st - 1, ts=cmp_ts - 1), key='C03:order-antisym')
+        # sign() returns 0 / 1 / 2 for < / = / >: the order answers "equal" exactly on equal terms
+        if (cmp_st == 1) != ref or (cmp_ts == 1) != ref:
+            run.violation('property', 'fast_compare answers %s on terms that are %s (%s pair): %s vs %s' % (
+                              'equal' if cmp_st == 1 or cmp_ts == 1 else 'different', 'equal' if ref else 'different', kind, sstr(s), sstr(t)),
+                          dict(s=repr(s), t=repr(t), st=cmp_st - 1, ts=cmp_ts - 1, equal=ref), key='C03:order-eq')
         exprs.append('case_pair %s %s' % (g_tm(s), g_tm(t)))
         meta.append((s, t, kind, eq, hs == ht, cmp_st))
         run.count(('pair', g_tm(s), g_tm(t)), nontrivial=ref or kind in ('mutation', 'alpha'))
